@@ -30,6 +30,7 @@ def handle (j : Json) : Except String Json := do
   | "nest_part" => Driver.nestPart j
   | "nest_dyn" => Driver.nestDyn j
   | "nest_statdyn" => Driver.nestStatDyn j
+  | "nest_chain" => Driver.nestChain j
   | "legality" => Driver.legality j
   | "parse_spec" => Driver.parseSpec j
   | "prec" => Driver.prec j
